@@ -102,6 +102,9 @@ pub fn opt_transform(parent_node: &Node, tag_name: &str) -> Result<Option<Transf
 }
 
 pub fn gen_string<T: Display>(tag_name: &str, value: &T) -> String {
+    // The end marker of a CDATA section cannot be part of its content,
+    // it needs to be split and distributed over two sections.
+    let value = value.to_string().replace("]]>", "]]]]><![CDATA[>");
     format!("<{tag_name} type=\"String\"><![CDATA[{value}]]></{tag_name}>\n")
 }
 
